@@ -149,6 +149,27 @@ func dischargeOne(o *Obligation, opt SolveOpts, wid int) {
 	all = append(all, final)
 	o.Seconds += final.secs
 	if !decided(final) && want == "unsat" {
+		// stage 1b: case split on the most recent control-flow merge the path condition depends on
+		if cases := o.splitCases(); len(cases) > 0 {
+			allUnsat := true
+			secs := 0.0
+			for ci, cs := range cases {
+				q := o.QueryWith(false, false, cs)
+				r, _, s1 := runSolverCtx(context.Background(), portfolio[0], q, fmt.Sprintf("%s-split%d.smt2", base, ci), 3*time.Second)
+				secs += s1
+				if r != "unsat" {
+					allUnsat = false
+					break
+				}
+			}
+			o.Seconds += secs
+			if allUnsat {
+				final = res{solverDef{name: "z3-new/split"}, "unsat", "", secs}
+				all = append(all, final)
+			}
+		}
+	}
+	if !decided(final) && want == "unsat" {
 		// stage 2: portfolio race, first decided answer wins
 		ctx, cancel := context.WithCancel(context.Background())
 		ch := make(chan res, len(portfolio))
